@@ -125,7 +125,7 @@ def lean_stage(prop: str, extra_modules=()):
             rc2, out2 = sh(["lake", "env", "lean", str(audit)], cwd=LEAN)
             cur = None
             ax: dict[str, set] = {}
-            for l in out2.replace("\n  ", " ").split("\n"):
+            for l in re.sub(r"\n[ \t]+", " ", out2).split("\n"):     # Lean wraps long reports onto indented continuation lines
                 m = re.match(r"'(\S+)' depends on axioms: \[(.*)\]", l)
                 if m:
                     ax[m.group(1)] = {x.strip() for x in m.group(2).split(",") if x.strip()}
@@ -272,6 +272,10 @@ def replay(prop: str, path: str) -> int:
     if not hasattr(mod, "replay"):
         print("no replay support for", prop)
         return 2
-    ok = mod.replay(payload)
+    try:
+        ok = mod.replay(payload)
+    except ValueError as e:        # a payload without a concrete input (e.g. kind no-failing-input-found): not a verdict
+        print(f"replay: {e}")
+        return 2
     print("replay:", "property holds on this input" if ok else "property FAILS on this input")
     return 0 if ok else 1
